@@ -58,6 +58,9 @@ mut('c03-cmd-empty', 'C03', 'src/codec/command.rs', "        if buf.is_empty() {
 mut('c03-matrix-index', 'C03', 'src/lib.rs', "COMPATIBILITY_MATRIX[row_index * 12 + col_index] != 0", "COMPATIBILITY_MATRIX[row_index * 13 + col_index] != 0", note='out of bounds for STREAM row')
 mut('c03-decode-greeting-len', 'C03', 'src/codec/zmq_codec.rs', "            waiting_for: 64, // len of the greeting frame", "            waiting_for: 60, // len of the greeting frame", note='split_to(64) on 60..63 buffered bytes panics')
 mut('c03-recursion-back', 'C03', 'src/codec/zmq_codec.rs', "                    if !frame.more {", "                    if frame.more {\n                        return self.decode(src);\n                    }\n                    if !frame.more {", expect='any-nonzero', note='F4 returns: recursion per frame (a recursive exec fn needs a decreases measure; Verus reports it)')
+mut('c03-pub-empty-guard', 'C03', 'src/pub.rs', "        if data.is_empty() {\n            return;\n        }\n", "", expect='ok', note='HARMLESS: data.first() is None for an empty frame and the _ arm handles it; data[1..] is only evaluated in the Some arms')
+mut('c03-pub-slice-from-2', 'C03', 'src/pub.rs', "                    entry.subscriptions.push(Vec::from(&data[1..]));", "                    entry.subscriptions.push(Vec::from(&data[2..]));", note='a bare 0x01 frame (subscribe to everything) panics on data[2..]')
+mut('c03-xpub-unsubscribe-index', 'C03', 'src/xpub.rs', "                        entry.subscriptions.remove(index);", "                        entry.subscriptions.remove(index + 1);", note='removing past the end panics when the cancelled topic is the last one')
 # ---------------------------------------------------------------- C04 handshake
 mut('c04-version-gt', 'C04', 'src/util.rs', "            if peer.version >= my_version {", "            if peer.version > my_version {", note='rejects 3.0 peers (tests only cover via real sockets? no: unit tests cover; kept as control)')
 mut('c04-version-minor', 'C04', 'src/util.rs', "            if peer.version >= my_version {", "            if peer.version.0 >= my_version.0 && peer.version.1 >= my_version.1 {", expect='ok', note='equivalent for my_version = (3,0): must NOT alarm')
